@@ -95,3 +95,29 @@ Print Assumptions C03_mp11_integrity_after_every_history.
 
 Example C03_integrity_example : wfz (md_root ex_core_md) /\ core (md_root ex_core_md) /\ Forall plain_op ex_core_ops.
 Proof. split; [exact ex_core_wfz|]. split; [exact ex_core_ok|]. repeat constructor; cbn; discriminate. Qed.
+
+(* the same after every history that also stores events from outside and processes them (enqueue_event,
+   execute_queued_events / process_event_pool, the single-step variants): the configuration the engine ends in is the one
+   the specification with a pending list prescribes, and it satisfies the integrity invariant *)
+From Msm Require Import Lemmas_SpecQueue Lemmas_SpecQueueInv.
+Theorem C03_back_integrity_after_every_history_with_stored_events : forall cf, c_be cf = Back ->
+  forall parents, (forall e, nth e parents None = None) -> back_start_queues = true ->
+  forall root, core root -> wfz root -> forall l, Forall qplain_op l -> count_enq l + depth root + 3 <= default_fuel ->
+  inv root (abs (final_rn cf root (build cf parents false root) default_fuel (init_rnode root) l)).
+Proof. exact back_integrity_after_queue_history. Qed.
+Print Assumptions C03_back_integrity_after_every_history_with_stored_events.
+
+Theorem C03_mp11_integrity_after_every_history_with_stored_events : forall cf, c_be cf = Mp11 ->
+  forall parents, (forall e, nth e parents None = None) -> mp11_entry_throw_resets = true ->
+  forall root, core root -> m_hist root = HNone -> wfz root ->
+  forall l, qbracketed false l -> 2 * count_enq l + depth root + 3 <= default_fuel ->
+  inv root (abs (final_rn cf root (build cf parents false root) default_fuel (init_rnode root) l)).
+Proof. exact mp11_integrity_after_queue_history. Qed.
+Print Assumptions C03_mp11_integrity_after_every_history_with_stored_events.
+
+Example C03_integrity_stored_events_example :
+  wfz (md_root ex_core_md) /\ core (md_root ex_core_md) /\ Forall qplain_op ex_queue_ops /\ qbracketed false ex_queue_ops_mp11.
+Proof.
+  split; [exact ex_core_wfz|]. split; [exact ex_core_ok|]. split; [repeat constructor; cbn; discriminate|].
+  cbn; repeat split; discriminate.
+Qed.
